@@ -32,6 +32,7 @@ class Gen:
         import hippolyzer.lib.base.namevalue as namevalue
         self.se, self.T, self.dt, self.nv = se, templates, dtypes, namevalue
         self.rng = rng
+        self._raw_cursor = {}
 
     # ---- leaves
     def prim(self, spec):
@@ -55,6 +56,24 @@ class Gen:
         if r < 0.6:
             return max(lo, min(hi, rng.randrange(-3, 40)))
         return rng.randrange(lo, hi + 1)
+
+    def raw_of(self, spec, child):
+        """integer-backed leaves: walk through ALL raw values of the wire type, boundaries first
+        (8-bit: every raw; wider: boundaries, then a stride through the range, then random)"""
+        cur = self._raw_cursor.setdefault(id(spec), [0])
+        i = cur[0]
+        cur[0] += 1
+        lo, hi = child.min_val, child.max_val
+        first = [hi, hi - 1, hi - 2, hi - 3, lo, lo + 1, lo + 2, (lo + hi) // 2, (lo + hi) // 2 + 1]
+        if i < len(first):
+            return first[i]
+        i -= len(first)
+        n = hi - lo + 1
+        if n <= 256:
+            return lo + (i * 37) % n if i < n else self.rng.randrange(lo, hi + 1)     # 37 is coprime to 256
+        if i < 512:
+            return lo + (i * (n // 512) + i) % n
+        return self.rng.randrange(lo, hi + 1)
 
     def raw_bytes(self, n):
         return bytes(self.rng.randrange(256) for _ in range(n))
@@ -172,8 +191,8 @@ class Gen:
             return d
         if isinstance(spec, se.QuantizedFloat):
             child = spec._child_spec
-            if rng.random() < 0.5:
-                return spec.decode(self.prim(child), None)
+            if rng.random() < 0.7:
+                return spec.decode(self.raw_of(spec, child), None)
             r = rng.random()
             span = spec.upper - spec.lower
             if r < 0.8:
@@ -182,8 +201,8 @@ class Gen:
                 return rng.choice((spec.lower, spec.upper, 0.0, -0.0))
             return rng.uniform(spec.lower - span, spec.upper + span)
         if isinstance(spec, se.FixedPoint):
-            if rng.random() < 0.5:
-                raw = self.prim(spec._ser_spec)
+            if rng.random() < 0.8:
+                raw = self.raw_of(spec, spec._ser_spec)
                 v = float(raw) / (1 << spec._frac_bits)
                 return v - spec._max_val if spec._signed else v
             return rng.uniform(spec._min_val - 1.0, spec._max_val + 1.0)
